@@ -146,6 +146,8 @@ var c19TagArg = []string{
 	"l1\n\n«T if t «t\n«T xwrap «O nosuch | nofilter «o «t b «T endxwrap «t«T endif «t",
 	"«T for i in (1..2) «t«T xecho i=«O i «o «O- forloop.index -«o ; «t«T endfor «t",
 	"«T assign v = 'w' «t«T xecho «O v | append: s «o and «O arr | join: '+' «o «t",
+	// the shortest tags there are, also as the last bytes of the source (shorter than a long object delimiter)
+	"x«Tz«t", "«Tz«t", "«O n «o«T-z-«t", "a «Tz -«t",
 }
 
 func c19Spell(tpl string, q [4]string) string {
